@@ -84,6 +84,8 @@ PROPS = {"C12": dict(
     lean_modules=["Vore.Props.C12"],
     theorems=THEOREMS,
     extract=True,
+    fallback="accept/reject of the real Compile on every small statement tree (every operator x operand-type combination, "
+             "every statement rule, both contexts) and on generated statement lists, against the documented typing rules",
     run=run,
     replay=P.replay,
     trusted_base=[
